@@ -8,6 +8,14 @@ for N scheduler rounds while every other node steps (1-3 `recv` / `send` each, r
          sink or (30 %) a relay.  Theorem C04_net_chain_stall_bounded: node j < K publishes at most 1 + 2 (K - 1 - j) further frame sets.
   tee    any node u with >= 2 consumers, victim = one of them, tracked by u when the stall begins; clock readings of the stall within one connection
          time-out of the victim's last request.  Theorem C04_net_tee_stall_bounded_partial: u publishes at most ONE further frame set.
+  tree   (OFProps/C04Tree.lean) source -> 1-3 levels of relays, 1-3 consumers per publisher (siblings with subtrees of their own), victim K at any
+         depth >= 1 (it may keep calling `send`); the relays strictly between K and the source forward every set, everybody else is arbitrary;
+         clock readings of the stall within one connection time-out.  Theorem C04_net_tree_stall_bounded: the ancestor of K at distance d
+         publishes at most 1 + 2 (d - 1) further frame sets provided each of the d nearest ancestors tracks the next node on the path down to K
+         (read off the REAL client tables when the stall begins) and their clock readings stay in [lo, lo + time-out], lo <= every such t_last.
+         C04_net_tree_edge_conservation (every edge u -> c, no hypothesis): sets handed to c + sets queued at its SUB socket afterwards =
+         sets queued before + sets u published.  C04_net_tree_siblings_stall_too: a node fed through the ancestor at distance d is handed at
+         most 1 + 2 (d - 1) sets plus what was on its way (queued at the SUB sockets in between + results held by the relays in between).
 Implementation-level oracle `net-overrun-after-stall`: a node published more sets during the stall than its proved bound, or the real SUB socket of
 some node holds wire messages of more than `QUEUE_BLOCKS` distinct frame sets it has not returned yet."""
 import json, logging
@@ -68,6 +76,38 @@ def gen_tee(rng):
     return {'family': 'tee', 'ups': ups, 'behs': behs, 'victim': rng.choice(sinks), 'hub': hub}
 
 
+def gen_tree(rng):
+    """source 0, then the path 0 -> p1 -> ... -> K (1-3 ancestors), then 0-2 further consumers for every node of the path (K included) and 0-2 consumers
+    below some of those; parents are listed before their children (`ParOK`)"""
+    depth = rng.choice([1, 2, 2, 2, 3, 3])
+    ups, behs, path = [[]], [any_src(rng)], [0]
+    for lvl in range(1, depth + 1):
+        ups.append([path[-1]]); path.append(len(ups) - 1)
+        behs.append(fwd_relay(rng, len(ups) - 1) if lvl < depth else relay_any(rng, len(ups) - 1))
+    sibs = []
+    for p in path:
+        hi = 2 if p != path[-1] else 1
+        for _ in range(rng.randint(0 if p == path[-1] or sibs else 1, hi)):
+            if len(ups) >= 10: break
+            ups.append([p]); behs.append(relay_any(rng, len(ups) - 1)); sibs.append(len(ups) - 1)
+    for x in list(sibs):
+        if rng.random() < 0.3 and len(ups) < 11:
+            for _ in range(rng.randint(1, 2)):
+                ups.append([x]); behs.append(relay_any(rng, len(ups) - 1))
+    return {'family': 'tree', 'ups': ups, 'behs': behs, 'victim': path[-1]}
+
+
+def ancestors(topo, v):
+    """[parent, grand-parent, ..., source] of node v"""
+    out = []
+    while topo['ups'][v]:
+        v = topo['ups'][v][0]; out.append(v)
+    return out
+
+
+def tree_bound(d): return 1 + 2 * (d - 1)
+
+
 def gen_prefix(rng, topo, gaps=True, min_rounds=0):
     n = len(topo['ups'])
     style = rng.choice(['flow', 'flow', 'loose', 'chaos'])
@@ -115,11 +155,21 @@ def gen_stall(rng, topo, rounds, t0, window=None):
 
 
 def gen_trial(rng, rounds, family=None):
-    family = family or rng.choice(['chain', 'chain', 'tee'])
+    family = family or rng.choice(['chain', 'chain', 'tee', 'tree', 'tree'])
     if family == 'chain':
         topo = gen_chain(rng)
         pre, t = gen_prefix(rng, topo)
         return {'topo': topo, 'prefix': pre, 'stall': gen_stall(rng, topo, rounds, t)}
+    if family == 'tree':
+        topo = gen_tree(rng)
+        pre, t = gen_prefix(rng, topo, gaps=rng.random() < 0.2, min_rounds=rng.choice([0, 6, 9, 12]))     # an edge at depth k is tracked after ~3 k + 1 fair rounds
+        stall = gen_stall(rng, topo, rounds, t, window=CONN_TIMEOUT - 1)
+        if rng.random() < 0.3:        # the stalled node stops polling but its loop may go on calling `send`
+            for _ in range(rng.randint(1, 6)):
+                k = rng.randrange(len(stall) + 1)
+                tk = next((e['t'] for e in stall[k:] if e['k'] == 'send'), t)
+                stall.insert(k, {'k': 'send', 'i': topo['victim'], 't': tk})
+        return {'topo': topo, 'prefix': pre, 'stall': stall, 't0': t}
     topo = gen_tee(rng)
     pre, t = gen_prefix(rng, topo, gaps=rng.random() < 0.3, min_rounds=rng.choice([0, 5, 5, 6]))     # the hub tracks a consumer after ~4 fair rounds
     return {'topo': topo, 'prefix': pre, 'stall': gen_stall(rng, topo, rounds, t, window=CONN_TIMEOUT - 1), 't0': t}
@@ -160,18 +210,20 @@ def run_stall(trial):
     n = len(topo['ups'])
     pubs = [0] * n
     maxq = [0] * n
-    info = {'tracked': None, 'tlast': None}
+    handed = [0] * n
+    info = {'tracked': None, 'tlast': None, 'cut': False}
     for idx, ev in enumerate(evs):
         if idx == npre: note_tracking(rig, topo, info)
         o = rig.event(idx, ev)
         out.append((o, rig.snap()))
-        if o['k'] == 'rcvd' and any(x['k'] == 'dup' for x in o['outs']): break
+        if o['k'] == 'rcvd' and any(x['k'] == 'dup' for x in o['outs']): info['cut'] = True; break
         if idx >= npre:
             pubs[ev['i']] += sets_published(o)
+            if o['k'] == 'rcvd' and o['id'] is not None: handed[ev['i']] += 1
             for i in range(n):
                 for ids in sub_blocks(rig, i): maxq[i] = max(maxq[i], len(ids))
     if npre == len(evs): note_tracking(rig, topo, info)
-    info.update({'pubs': pubs, 'maxq': maxq})
+    info.update({'pubs': pubs, 'maxq': maxq, 'handed': handed, 'q1': [sum(len(ids) for ids in sub_blocks(rig, i)) for i in range(n)]})
     rig.close()
     return out, info
 
@@ -184,6 +236,18 @@ def note_tracking(rig, topo, info):
     ent = [c for f, c in S.clients.items() if c.client_id == pre and not c.ephemeral] if S is not None else []
     info['tracked'] = bool(ent)
     info['tlast'] = max((c.t_last for c in ent), default=None)
+    # the state in which the stall begins: frame sets queued at every SUB socket, results held by the loops, and for every edge of the path from the
+    # victim up to the source: does the publisher track its consumer (as a synchronised client), and since when
+    n = len(topo['ups'])
+    info['q0'] = [sum(len(ids) for ids in sub_blocks(rig, i)) for i in range(n)]
+    info['pending0'] = [bool(rig.nodes[i]['has_pending']) for i in range(n)]
+    path, c = [], v
+    for a in ancestors(topo, v):
+        Sa = rig.nodes[a]['mq'].sender
+        ents = [x for x in Sa.clients.values() if x.client_id == netfeed.cid(c) and not x.ephemeral] if Sa is not None else []
+        path.append({'u': a, 'c': c, 'tracked': bool(ents), 'tlast': min((x.t_last for x in ents), default=None)})
+        c = a
+    info['path'] = path
 
 
 def stall_oracle(trial, info):
@@ -197,10 +261,60 @@ def stall_oracle(trial, info):
         for i in range(n):
             if info['maxq'][i] > QUEUE_BLOCKS:
                 out.append(('net-overrun-after-stall', f"chain of {n}: {info['maxq'][i]} frame sets queued at the SUB socket of node {i} during the stall"))
+    elif topo['family'] == 'tree':
+        out += tree_oracle(trial, info)
     else:
         u = topo['ups'][v][0]
         if info['tracked'] and tee_window_ok(trial, info) and info['pubs'][u] > 1:
             out.append(('net-overrun-after-stall', f"tee: node {u} published {info['pubs'][u]} frame sets while its tracked consumer {v} was stalled (bound 1)"))
+    return out
+
+
+def tree_depth_ok(trial, info):
+    """largest d such that the hypotheses of C04_net_tree_stall_bounded hold for the d nearest ancestors of the victim: each tracks the next node on the
+    path (when the stall begins) and every clock reading of their sends during the stall lies in [lo, lo + ZMQ_CONN_TIMEOUT] for some lo <= each t_last"""
+    d, los, anc = 0, [], []
+    for e in info.get('path') or []:
+        if not e['tracked']: break
+        anc.append(e['u']); los.append(e['tlast'])
+        ts = [x['t'] for x in trial['stall'] if x['k'] == 'send' and x['i'] in anc]
+        lo = min(los + ts)
+        if ts and max(ts) - CONN_TIMEOUT > lo: break
+        d += 1
+    return d
+
+
+def tree_oracle(trial, info):
+    topo = trial['topo']
+    v, n = topo['victim'], len(topo['ups'])
+    out = []
+    if info.get('cut') or 'q0' not in info: return out
+    # every edge: conservation
+    for c in range(1, n):
+        u = topo['ups'][c][0]
+        if info['handed'][c] + info['q1'][c] != info['q0'][c] + info['pubs'][u]:
+            out.append(('net-overrun-after-stall', f"tree: edge {u} -> {c}: {info['handed'][c]} sets handed + {info['q1'][c]} still queued != {info['q0'][c]} queued before + "
+                        f"{info['pubs'][u]} published during the stall"))
+    # the ancestors of the stalled node
+    dok = tree_depth_ok(trial, info)
+    anc = ancestors(topo, v)
+    for d in range(1, dok + 1):
+        a = anc[d - 1]
+        if info['pubs'][a] > tree_bound(d):
+            out.append(('net-overrun-after-stall', f"tree of {n}: node {a}, ancestor at distance {d} of the stalled node {v}, published {info['pubs'][a]} frame sets during the stall "
+                        f"(bound {tree_bound(d)}; every edge of the path tracked, clock readings within the time-out)"))
+    # everybody fed through one of these ancestors
+    for m in range(1, n):
+        if m == v or m in anc: continue
+        x, backlog, r = m, 0, 0
+        while x not in anc and topo['ups'][x]:
+            backlog += info['q0'][x] + (info['pending0'][x] if r >= 1 else 0)
+            x = topo['ups'][x][0]; r += 1
+        if x in anc and anc.index(x) + 1 <= dok:
+            d = anc.index(x) + 1
+            if info['handed'][m] > backlog + tree_bound(d):
+                out.append(('net-overrun-after-stall', f"tree of {n}: node {m}, fed through node {x} (ancestor at distance {d} of the stalled node {v}), was handed {info['handed'][m]} "
+                            f"frame sets during the stall (bound {backlog} on their way + {tree_bound(d)})"))
     return out
 
 
